@@ -287,4 +287,54 @@ Section ParserFacts.
           unfold mk in IH. destruct (pullf _ _); auto. destruct IH; split; auto; lia.
       + destruct (too_long _ _); [exact I|]. unfold st_ok. cbn [paw pbuf]. exact F.
   Qed.
+  (* ---------- which items a parser in a given class of coroutine states can produce ----------
+     Qpre: the class of the coroutine state before; while no item is produced the coroutine stays in Qpre; an item
+     produced from Qpre satisfies R and leaves the coroutine in Qpost. *)
+  Section Classes.
+    Variables (Qpre Qpost : G -> Prop) (R : item -> Prop).
+    Hypothesis class_validate : forall g c g', Qpre g -> validate g c = Some g' -> Qpre g'.
+    Hypothesis class_resume : forall g buf, Qpre g ->
+      match resume g buf with
+      | RItem x g' _ _ => R x /\ Qpost g'
+      | RAwait g' _ _ => Qpre g'
+      | RErr _ => True
+      end.
+
+    Lemma pull_class fuel : forall s d, Qpre (pg s) ->
+      match pull fuel s d with
+      | Item x s' _ => R x /\ Qpost (pg s')
+      | NeedMore s' => Qpre (pg s')
+      | Err _ => True
+      end.
+    Proof.
+      induction fuel as [|fuel IH]; intros s d Hq; [exact Hq|].
+      cbn [Parser.pull]. unfold Parser.pull_body.
+      destruct d as [|b0 d0]; [exact Hq|].
+      assert (AR : forall g buf rest, Qpre g ->
+                match after_resume G item err (resume g buf) rest (pull fuel) with
+                | Item x s' _ => R x /\ Qpost (pg s')
+                | NeedMore s' => Qpre (pg s')
+                | Err _ => True
+                end).
+      { intros g buf rest Hg. pose proof (class_resume g buf Hg) as Hr.
+        destruct (resume g buf) as [x g' a n|g' a n|e]; cbn [after_resume]; [exact Hr| |exact I].
+        apply IH. exact Hr. }
+      destruct (paw s) as [u|max].
+      - destruct (if u then validate (pg s) (take (prem s) (b0 :: d0)) else Some (pg s)) as [g'|] eqn:Ev; [|exact I].
+        assert (Hg' : Qpre g').
+        { destruct u; [eapply class_validate; eauto|inversion Ev; subst; exact Hq]. }
+        cbv zeta. destruct (_ =? 0)%N; [apply AR; exact Hg'|exact Hg'].
+      - cbv zeta. destruct (find_sep (pbuf s ++ b0 :: d0)) as [i|].
+        + destruct (too_long max _); [exact I|]. apply AR. exact Hq.
+        + destruct (too_long max _); [exact I|exact Hq].
+    Qed.
+
+    Lemma pullf_class s d : Qpre (pg s) ->
+      match pullf s d with
+      | Item x s' _ => R x /\ Qpost (pg s')
+      | NeedMore s' => Qpre (pg s')
+      | Err _ => True
+      end.
+    Proof. apply pull_class. Qed.
+  End Classes.
 End ParserFacts.
